@@ -328,7 +328,8 @@ def probes(c, tmp):
         return res
 
     def show(st):
-        return {"times": st["times"], "slots": [{e["var"]: [float(unfr(x)) for x in e["vals"]] for e in sl] for sl in st["slots"]}}
+        return {"times": st["times"],
+                "slots": [{e["var"]: [float(unfr(x)) for x in e["vals"]] for e in sl} for sl in st["slots"]]}
 
     def judge(fid, res, what):
         if res[0] == "raise":
